@@ -259,8 +259,11 @@ def gen_ops(rng, kind, rows, cols, n, ids):
         if kind == "photon":
             w += [("set3", 22), ("read3", 10)]
         w.append(("adopt", 7))
+        w.append(("emptyAll", 8))
         name = rng.choices([a for a, _ in w], [b for _, b in w])[0]
-        if name == "adopt":
+        if name == "emptyAll":
+            ops.append(["emptyAll", rng.random() < 0.5])   # detector.empty(reset)
+        elif name == "adopt":
             ids[0] += 1
             ops.append(["adopt", gen_source(rng, ids[0], kind, rows, cols)])
         elif name in ("set", "set3", "iadd"):
@@ -380,6 +383,9 @@ def apply_op(c, op, plus, det=None, kind=None):
                 c += materialise(op[1])
         elif name == "empty":
             c.empty()
+        elif name == "emptyAll":
+            det.empty(op[1])          # Detector.empty / MKID.empty: acts on every bucket
+            c = getattr(det, kind)
         elif name == "read":
             c.array  # noqa: B018
         elif name == "read3":
@@ -424,6 +430,10 @@ def eval_content(expr, descs, rows, cols):
     if tag == "clip":
         x = materialise(descs[expr[1]])
         return x.clip(min=0.0) if isinstance(x, xr.DataArray) else np.clip(np.asarray(x), 0.0, None)
+    if tag == "times0":
+        x = eval_content(expr[1], descs, rows, cols).copy()
+        x *= 0
+        return x
     if tag == "plus":
         x = eval_content(expr[1], descs, rows, cols)
         x = x.copy()
@@ -521,6 +531,12 @@ def property_predicate(box, impl):
                 exp_empty = op[1]["hold"] is None
             elif name == "empty":
                 exp_empty = kind != "pixel"
+            elif name == "emptyAll":
+                # photon, signal, image: always emptied; pixel: zeros on a destructive reset, kept otherwise; phase: kept / zeroed
+                if kind in ("photon", "signal", "image"):
+                    exp_empty = True
+                elif kind == "pixel" and op[1]:
+                    exp_empty = False
             elif name == "update" and op[1] is None:
                 exp_empty = True
         if name in ("read", "read3", "dtype") and exp_empty and not (name == "read3" and kind != "photon"):
@@ -528,8 +544,17 @@ def property_predicate(box, impl):
                 bad.append((f"C13:read-empty-returns:{kind}.{name}", f"op #{i} {name} on an empty container returned instead of raising", i))
             elif not (r["obs"] or "").strip():
                 bad.append((f"C13:read-empty-unexplained:{kind}.{name}", f"op #{i} {name} on an empty container raised {out} without a message", i))
-        if out == "ok" and ((name == "empty" and kind != "pixel") or (name == "update" and op[1] is None)) and st is not None:
-            bad.append((f"C13:stale-after-reset:{kind}", f"op #{i} {name}: the container should be empty but still holds data", i))
+        if out == "ok" and ((name == "empty" and kind != "pixel") or (name == "update" and op[1] is None)
+                            or (name == "emptyAll" and kind in ("photon", "signal", "image"))) and st is not None:
+            bad.append((f"C13:stale-after-reset:{kind}" + (".emptyAll" if name == "emptyAll" else ""),
+                        f"op #{i} {name}{'(reset=%s)' % op[1] if name == 'emptyAll' else ''}: the container should be empty but still holds data "
+                        "(a read returns the previous content instead of raising)", i))
+        if out == "ok" and kind == "pixel" and (name == "empty" or (name == "emptyAll" and op[1])) and not why:
+            import numpy as np
+
+            z = hashlib.sha1(np.zeros((rows, cols), dtype=float).tobytes()).hexdigest()
+            if st is None or st.get("sha") != z or st.get("npdt") != "float64":
+                bad.append(("C13:stale-after-reset:pixel", f"op #{i} {name}: the pixel bucket should be all zero after a reset", i))
         prev = st
     return bad
 
@@ -628,7 +653,7 @@ def lean_box(v):
 def descs_of(box):
     d = {}
     for op in box["ops"]:
-        if len(op) > 1 and op[1] is not None:
+        if len(op) > 1 and op[1] is not None and op[0] != "emptyAll":
             if op[0] == "adopt":
                 if op[1]["hold"] is not None:
                     d[op[1]["id"]] = op[1]["hold"]
@@ -644,6 +669,8 @@ def lean_run_request(box):
             ops.append(op)
         elif op[1] is None:
             ops.append([op[0], None])
+        elif op[0] == "emptyAll":
+            ops.append(["emptyAll", bool(op[1])])
         elif op[0] == "adopt":
             ops.append(["adopt", None if op[1]["hold"] is None else lean_operand(op[1]["hold"])])
         else:
@@ -707,6 +734,22 @@ def body(ck: common.Check):
                                             "form": "ndarray", "shape": shape, "dtype": dt}])
                     b["ops"].append(["read"])
                 boxes.append(("dtypes", b))
+    # directed: detector.empty(reset) on filled / empty buckets of every kind of every detector type (non-square), then reads
+    for det in ("CCD", "CMOS", "APD", "MKID"):
+        for kind in ("photon", "pixel", "signal", "image") + (("phase",) if det == "MKID" else ()):
+            for reset in (True, False):
+                for start in ("full", "empty", "full-nan"):
+                    rows, cols = rng.choice([(2, 3), (3, 1), (1, 4), (4, 2), (3, 5)])
+                    b = directed_box(rng, ids, kind, rows, cols, "empty" if start == "empty" else "full")
+                    b["det"] = det
+                    b["ops"] = [op for op in b["ops"] if op[0] != "read"]
+                    if start == "full-nan" and kind != "image":
+                        b["ops"][0][1]["fill"] = "nan"
+                    b["ops"] += [["emptyAll", reset], ["read"], ["dtype"], ["shape"]]
+                    if rng.random() < 0.5:
+                        ids[0] += 1
+                        b["ops"] += [["iadd", gen_operand(rng, ids[0], kind, rows, cols, "iadd")], ["emptyAll", not reset], ["read"]]
+                    boxes.append(("detector-reset", b))
     # directed: photon assignments of arrays holding BOTH NaN and negative counts, every float type, every assignment path
     for dt in FLOATS:
         for path in ("set", "iadd", "plus", "set3", "iadd3", "plus3", "adopt", "set-after-full", "set3-after-full"):
@@ -780,10 +823,10 @@ def body(ck: common.Check):
         nan_skip = v is None and (impl["ab"] is not eq_expected(va, vb))
         if ans["spec"] is not eq_expected(va, vb) and not nan_skip:
             raise common.InfraError(f"python eq oracle and Lean eqSpecB disagree on {case}")
-    ck.rule = ("operation histories (1-12 ops: .array=, .array_3d=, update, +=/+, detector.<bucket> = <container of another detector>, empty, .array, .array_3d, .dtype, .shape) on the real "
+    ck.rule = ("operation histories (1-12 ops: .array=, .array_3d=, update, +=/+, detector.<bucket> = <container of another detector>, empty, detector.empty(reset=True/False), .array, .array_3d, .dtype, .shape) on the real "
                "photon/pixel/signal/image/phase containers of CCD/CMOS/MKID/APD detectors of 1..5 x 1..5 pixels; operands: right/wrong "
                "shapes (transposed, +1, 1-D, 3-D, 0-d, broadcastable), all 19 numpy dtypes incl. object/str/datetime, lists, numpy and "
-               "Python scalars, None, DataArrays with right/wrong dims/coords, negative/NaN/NaN-and-negative/huge/zero fills; photon assignments of NaN-and-negative arrays by every path (set, set3, +=/+ on empty, adopt) x float16/32/64 directed; plus every dtype x "
+               "Python scalars, None, DataArrays with right/wrong dims/coords, negative/NaN/NaN-and-negative/huge/zero fills; photon assignments of NaN-and-negative arrays by every path (set, set3, +=/+ on empty, adopt) x float16/32/64 directed; detector.empty(True/False) on full / empty / NaN-holding buckets of every kind x CCD/CMOS/APD/MKID with non-square shapes followed by reads, directed; plus every dtype x "
                "{empty, full} x kind directed; equality on pairs (all emptiness combinations, same/different kind, shape, values, 2-D/3-D); "
                "non-trivial = at least two ops with at least one success (eq: at least one side full); distinct by canonical JSON")
     ck.assumptions = [
